@@ -4,7 +4,8 @@ d42/validation/_validator.py):  conforms(spec, value) -> True | False | None.
 None = DONTCARE: the property (C02/C14) explicitly leaves the pair undecided; such pairs are
 never compared against d42's verdict.  The zones are exactly:
   * bool where an int is declared (and True/False vs 1/0 as dict keys)   [isinstance(True, int)]
-  * instances of *subclasses* of the declared built-in type, datetime under a date schema
+  * instances of *subclasses* of the declared built-in type (except the plain dict subclasses listed in
+    DICT_SUBCLASSES, which are judged by their content), datetime under a date schema
   * float vs a fixed float value inside the tolerance band
   * NaN anywhere a float constraint (value/min/max) is involved
 """
@@ -14,6 +15,9 @@ import re
 import uuid
 
 ACCEPT, REJECT, DONTCARE = True, False, None
+# dict subclasses whose membership / item access for *present* keys is that of dict (a defaultdict or a
+# __missing__ dict is a dict; what it would invent for an absent key is not part of the value)
+DICT_SUBCLASSES = {"defaultdict", "OrderedDict", "CountingDict", "_DictSub", "Counter"}
 
 
 def _and(results):
@@ -60,9 +64,10 @@ def float_eq(v, w, precision=None):
         return REJECT
     d = abs(v - w)
     if precision is None:
-        if d <= 1e-12 * abs(w):
+        # documented tolerance: math.isclose default = relative 1e-9, no absolute part
+        if d <= 1e-12 * max(abs(w), abs(v)):
             return ACCEPT
-        if d >= 1e-6 * max(1.0, abs(w), abs(v)):
+        if d >= 1e-6 * max(abs(w), abs(v)):
             return REJECT
         return DONTCARE
     if d >= 2.5 * 10.0 ** -precision:
@@ -188,7 +193,7 @@ def conforms(spec, v):
     if t == "dict":
         if not isinstance(v, dict):
             return REJECT
-        if type(v) is not dict:
+        if type(v) is not dict and type(v).__name__ not in DICT_SUBCLASSES:
             return DONTCARE
         if "entries" not in spec:
             return ACCEPT
